@@ -452,7 +452,8 @@ func baseUnpack(L *LState) int {
 }
 
 func baseXPCall(L *LState) int {
-	fn := L.CheckFunction(1)
+	L.CheckAny(1)
+	fn := L.Get(1)
 	errfunc := L.CheckFunction(2)
 
 	top := L.GetTop()
